@@ -900,27 +900,6 @@ func looksLikeAssign(w *syntax.Word) bool {
 	return rest[0] == '=' || strings.HasPrefix(rest, "+=") || rest[0] == '['
 }
 
-// commentEndsInBackslash: some comment of the *source* ends in a backslash (the lexer then treats
-// the newline as escaped and continues the previous command on the next line).
-func commentEndsInBackslash(tc l4Case) bool {
-	if !strings.Contains(tc.Src, "\\\n") && !strings.Contains(tc.Src, "#") {
-		return false
-	}
-	f, err, p := parseIn(tc.Src, tc.Lang, syntax.KeepComments(true))
-	if err != nil || p != "" || f == nil {
-		return false
-	}
-	found := false
-	safely(func() {
-		syntax.Walk(f, func(n syntax.Node) bool {
-			if c, ok := n.(*syntax.Comment); ok && strings.HasSuffix(c.Text, "\\\n") {
-				found = true
-			}
-			return !found
-		})
-	})
-	return found
-}
 
 // arithFirst returns the first byte the printer writes for an arithmetic expression (0 = unknown).
 func arithFirst(x syntax.ArithmExpr) byte {
@@ -1092,12 +1071,9 @@ func c01Excluded(tc l4Case, f *syntax.File, sh *shape) string {
 	if o.Minify && o.Single {
 		return "" // only the refusal is checked
 	}
-	// C01-comment-backslash-newline (root cause in the lexer): a comment ending in a backslash
-	// swallows the newline, so the words of the next line join the command before the comment;
-	// the printer moves the comment behind them and the line after *that* joins on re-parse.
-	if commentEndsInBackslash(tc) {
-		return "C01-comment-backslash-newline"
-	}
+	// (C01-comment-backslash-newline — a comment ending in a backslash swallowed the newline — was
+	// repaired in /repo by a fix: commit; its witness stays in corpus/C01-known.txt and is no
+	// longer excluded.)
 	// C01-single-missing-semicolon: SingleLine joins statements with `;` only when the printer's
 	// wroteSemi flag is false, but the flag is stale after a nested `&`, `{` or `;;`.
 	between, beforeKw := wroteSemiLeaks(f)
@@ -1270,7 +1246,16 @@ func c01Excluded(tc l4Case, f *syntax.File, sh *shape) string {
 			default:
 				return false
 			}
-			return left.After(r.OpPos) && left.Line() == r.OpPos.Line() &&
+			sameLine := left.Line() == r.OpPos.Line()
+			if !sameLine {
+				// or the substitution is in the right operand of a binary command that starts on
+				// the operator's line (escaped newlines in between are dropped by the printer)
+				sameLine = sh.any(func(bn syntax.Node) bool {
+					b, ok := bn.(*syntax.BinaryCmd)
+					return ok && b.Y.Pos().Line() <= r.OpPos.Line() && nodeWithin(b.X, owner) && nodeWithin(b.Y, m)
+				})
+			}
+			return left.After(r.OpPos) && sameLine &&
 				(right.Line() > left.Line() || nst > 1 || o.Minify || (o.FuncNext && containsType(m, "FuncDecl")))
 		})
 	}) {
